@@ -149,13 +149,13 @@ def run(chk, runner_ok):
     if runner_ok:
         rxsuite.run_rx(chk, groups=["c11"], per_regex=chk.n(40, 300))
     # ---- the grammar of the property ------------------------------------
-    cases = [ml.gen_case(rng) for _ in range(chk.n(1100, 12000))]
+    cases = [ml.gen_case(rng) for _ in range(chk.n(2800, 24000))]
     run_cases(chk, model, cases, "MATCHER")
     # ---- loose stream ------------------------------------------------------
-    cases = [ml.gen_case(rng, loose=True) for _ in range(chk.n(700, 7000))]
+    cases = [ml.gen_case(rng, loose=True) for _ in range(chk.n(1500, 14000))]
     run_cases(chk, model, cases, "MATCHER-loose")
     # ---- two `**`: the known finding, in a stream of its own --------------
-    cases = [ml.gen_case(rng, two_starstar=True) for _ in range(chk.n(60, 400))]
+    cases = [ml.gen_case(rng, two_starstar=True) for _ in range(chk.n(150, 800))]
     fixed = ml.gen_case(rng, two_starstar=True)
     fixed.a, fixed.b = ("r/**/x/**/*", [], None), ("l/**/y/**/*", [], None)
     fixed.atoms_a = [("L", "r/"), ("SS", "/"), ("L", "x/"), ("SS", "/"), ("S",)]
@@ -183,7 +183,7 @@ def run(chk, runner_ok):
             chk.fail("match-raises-nested-variable-reused", {"a": a, "path": path}, repr(e))
     # ---- parse + raw stream ---------------------------------------------------
     pats = []
-    for _ in range(chk.n(3000, 30000)):
+    for _ in range(chk.n(6000, 40000)):
         pats.append(ml.rand_pattern(rng))
     pats = [p for p in pats if ml.ascii_names_only(p)]
     impl = [ml.impl_parse(p) for p in pats]
@@ -193,7 +193,7 @@ def run(chk, runner_ok):
         outs = model.call([(0, [canon(p)]) for p in pats])
         chk.correspond("PARSE", pats, impl, outs)
     reqs, impl, desc = [], [], []
-    for _ in range(chk.n(1500, 15000)):
+    for _ in range(chk.n(3000, 30000)):
         a = (ml.rand_pattern(rng), ml.rand_env(rng), rng.choice([None, None, None, "/r"]))
         b = (ml.rand_pattern(rng), ml.rand_env(rng), None)
         if not ml.ascii_names_only(a[0], b[0], *[v for _, v in a[1] + b[1]]):
